@@ -372,6 +372,9 @@ func (m *ConnectMessage) Decode(src []byte) (int, error) {
 	}
 	total += n
 
+	// Nothing behind the end of this packet belongs to it.
+	src = src[:total+int(m.remlen)]
+
 	if n, err = m.decodeMessage(src[total:]); err != nil {
 		return total + n, err
 	}
